@@ -20,7 +20,7 @@ A unit file (verus/units/*.vunit) is a list of sections:
                              -- -> `lossy_string(X)`, a trusted wrapper whose body is that very expression)
   #gsubst <old> => <new> / #gsubst-re <regex> => <repl>   -- the same, applied to every #fn and #item that follows
   #attr <attribute>          -- a Verus attribute line placed above the function (e.g. #[verifier::loop_isolation(false)])
-  #block <signature> / #in <fn anchor> / #from <line> / #to <line>  -- a run of statements inside a long function is
+  #block <signature> / #in <fn anchor> / #from[@N] <line> / #to <line>  -- a run of statements inside a long function is
                              -- copied verbatim as the body of a function whose signature (the block's free variables
                              -- with their types) is written in the unit; everything else as for #fn
   #deasync                   -- the function is an `async fn`: the `async` keyword and every `.await` are dropped, so the body
@@ -289,8 +289,10 @@ def parse_unit(path):
                 unit["items"].append(("fn", cur_fn))
             elif d == "in":
                 cur_fn["anchor"] = arg
-            elif d == "from":
+            elif d == "from" or d.startswith("from@"):
+                # `#from@N <line>`: the N-th body line with that text (default: the only one)
                 cur_fn["block_from"] = arg
+                cur_fn["block_from_nth"] = int(d.split("@")[1]) if "@" in d else None
             elif d == "to":
                 cur_fn["block_to"] = arg
             elif d == "until":
@@ -386,8 +388,11 @@ def assemble(unit, repo):
             if val.get("block_sig"):
                 bl = body.split("\n")
                 f = [k for k, l in enumerate(bl) if l.strip() == val["block_from"]]
-                if len(f) != 1:
+                nth = val.get("block_from_nth")
+                if (nth is None and len(f) != 1) or (nth is not None and len(f) < nth):
                     raise LostAnchor("block start %r matches %d lines in %s" % (val["block_from"], len(f), val["anchor"]))
+                if nth is not None:
+                    f = [f[nth - 1]]
                 if val.get("block_until"):
                     t = [k - 1 for k, l in enumerate(bl) if k > f[0] and l.strip() == val["block_until"]]
                     if not t:
